@@ -138,6 +138,48 @@ def run(ck: Check, prog: Program) -> None:
             ck.ob('ERR-PAYLOAD', 'BaseValidator.bind: ValidationError payload is str(...)', ok_p)
             if not ok_p:
                 ck.finding('ERR-PAYLOAD', b.qualname, 'non-string validation error payload', b.module.rel, x.lineno, f'`{norm(x.exc)}`')
+    # the exclusion set the dispatcher hands to validate_method is a collection of parameter names (a bare string would turn the
+    # `name in exclude` test of signature() into a substring test: parameters whose names are substrings of it are dropped)
+    from .c04 import bind_methods
+    from .c17 import exclude_expr
+    from .common import kwarg as _kw
+    for b_ in bind_methods(prog):
+        if b_.cls is not None and b_.cls.name == 'Method':
+            for x in walk_own(b_.node):
+                if isinstance(x, ast.Call) and isinstance(x.func, ast.Attribute) and x.func.attr == 'validate_method':
+                    form = exclude_expr(x, 2, prog, b_)
+                    okx = form == '{<method>.context} iff set'
+                    ck.ob('FWD-PARAM', f'{short(b_.qualname)} hands validate_method a collection holding exactly the context name (iff configured)', okx,
+                          sample={'exclude': form})
+                    if not okx:
+                        ck.finding('FWD-PARAM', b_.qualname, f'exclude={form}', b_.module.rel, x.lineno,
+                                   f'`exclude={form}` is not a one-element collection of the context name / an empty collection: signature() tests '
+                                   f'`param.name not in exclude`, so a bare string excludes every parameter whose name is a substring of the '
+                                   f'context name and a conforming call is refused with -32602')
+    # "accepted arguments reach the method unchanged": bind() hands back what Signature.bind produced, untouched
+    from .c04 import bind_result_untouched
+    bvb = prog.cls(BASEVAL).methods['bind']
+    cfg_b = CFG(bvb, prog)
+    bcalls = [c for n in cfg_b.stmt_nodes() for c in calls_in(n) if isinstance(c.func, ast.Attribute) and c.func.attr in ('bind', 'bind_partial')
+              and dotted(c.func.value) == bvb.params[1].arg]
+    if len(bcalls) == 1:
+        bp_ = bind_result_untouched(prog, bvb, cfg_b, bcalls[0])
+        ck.ob('VALID-SUBJECT', 'BaseValidator.bind returns the Signature.bind result untouched (what is validated and passed on is what the client sent)', not bp_)
+        for line, msg in bp_:
+            ck.finding('VALID-SUBJECT', bvb.qualname, msg[:70], bvb.module.rel, line, msg)
+    # a validator keeps no per-call state: options given for one method must not change what another method admits
+    from ..effects import Effects
+    for ci in vs:
+        vm = ci.methods.get('validate_method')
+        if vm is None:
+            continue
+        eff = Effects(prog, [vm], [ci])
+        ws = eff.shared_writes()
+        ck.ob('VALID-PURE', f'{ci.name}.validate_method writes no state that outlives the call', not ws, sample={'functions': len(eff.tree)})
+        for w in ws:
+            ck.finding('VALID-PURE', w.func.qualname, f'{w.why} on {w.target.split(":")[0]} state: {w.text[:50]}', w.func.module.rel, w.line,
+                       f'`{w.text}` writes validator state that outlives the call ({w.target}): whether a later call of ANOTHER method is admitted then '
+                       f'depends on which methods were validated before (options leak between methods sharing the validator)')
     _signature_filter(ck, prog)
     _same_signature(ck, prog)
     _coerce(ck, prog)
